@@ -1,7 +1,7 @@
 /* C14 recorder: header blocks of a single multipart part through the real multipart parser; reports the part's header table
  * (names and values in table order) and the header-block indicators, for whole delivery, one byte per call and a cut in the middle.
  *   fn_mphd exh <maxatoms1> <maxatoms2> <shard> <nshards>   blocks of one line (<= maxatoms1 atoms) and of two lines (<= maxatoms2 atoms each)
- *   fn_mphd blocks <maxlines> <shard> <nshards>          blocks of <= maxlines whole lines out of 17 (valid fields, repeats, folds, broken lines)
+ *   fn_mphd blocks <maxlines> <shard> <nshards>          blocks of <= maxlines whole lines out of 19 (valid fields, repeats, folds, broken lines)
  *   fn_mphd rand <seed> <count>                             blocks of 1..4 lines of 1..5 atoms                                        */
 #include <stdio.h>
 #include <stdlib.h>
@@ -33,7 +33,9 @@ static void run(const unsigned char *doc, size_t l, int mode) {
     if (m->flags & HTP_MULTIPART_PART_HEADER_UNKNOWN) printf(k++ ? ",\"PART_HEADER_UNKNOWN\"" : "\"PART_HEADER_UNKNOWN\"");
     if (m->flags & HTP_MULTIPART_PART_HEADER_REPEATED) printf(k++ ? ",\"PART_HEADER_REPEATED\"" : "\"PART_HEADER_REPEATED\"");
     if (m->flags & HTP_MULTIPART_PART_HEADER_FOLDING) printf(k++ ? ",\"PART_HEADER_FOLDING\"" : "\"PART_HEADER_FOLDING\"");
-    printf("],\"nparts\":%zu}", htp_list_size(m->parts));
+    printf("],\"ct\":");
+    if (p && p->content_type) { putchar('['); pbytes(bstr_ptr(p->content_type), bstr_len(p->content_type)); putchar(']'); } else printf("[]");
+    printf(",\"nparts\":%zu}", htp_list_size(m->parts));
     htp_mpartp_destroy(mp);
 }
 
@@ -89,7 +91,7 @@ int main(int argc, char **argv) {
     } else if (argc >= 5 && !strcmp(argv[1], "blocks")) {
         /* whole lines as building blocks: valid fields (same name in different case, known names), continuations, broken lines */
         static const char *WL[] = {"A:b", "a:c", "A: b ", "b:x", "Content-Type:text/plain", "content-type: a", "Content-Disposition: form-data; name=\"n\"",
-                                   " b", "\tc", "\x0b" "d", "A", ":b", "A :b", "A:", "(:b", "A:\t", "X-Y: z:w"};
+                                   "Content-Type: Text/HTML; charset=x", "content-type:a,B c", " b", "\tc", "\x0b" "d", "A", ":b", "A :b", "A:", "(:b", "A:\t", "X-Y: z:w"};
         const int NW = (int) (sizeof WL / sizeof *WL);
         int maxl = atoi(argv[2]), shard = atoi(argv[3]), nsh = atoi(argv[4]);
         long idx = 0;
